@@ -223,7 +223,29 @@ def r_get_group_ids(ctx: Ctx, rule: str):
         rexits = {x.tok[0].rpartition(".")[2] for x in g.raise_exits.values() if x.pred}
         rep.ob(rule, "an unknown group name raises TaskGroupNotFound and nothing else escapes", rexits == {"TaskGroupNotFound"}, func=f, construct="raising exits", detail=str(sorted(rexits)))
         ups = ctx.distinct_sites(ctx.nodes(f, lambda n: n.op == "call" and isinstance(n.ast.func, ast.Attribute) and n.ast.func.attr in ("update", "__ior__") ))
-        rep.floor(rule, "union step in get_group_ids", len(ups), 1)
+        # every in-place set operation of the function must work on a set created here, never on a register taken from the table
+        def fresh(name: str) -> bool:
+            hows = sc.defs.get(name, [])
+            if not hows or name in sc.params:
+                return False
+            for h in hows:
+                v = h[1] if h[0] == "assign" else (h[2] if h[0] == "ann" else None)
+                ok = isinstance(v, (ast.Set, ast.SetComp)) or (isinstance(v, ast.Call) and isinstance(v.func, ast.Name) and v.func.id in ("set", "frozenset")) or \
+                    (isinstance(v, ast.BinOp) and isinstance(v.op, (ast.BitOr, ast.BitAnd, ast.Sub)))
+                if not ok:
+                    return False
+            return True
+        inplace = []
+        for node in sc._own_nodes():
+            if isinstance(node, ast.AugAssign) and isinstance(node.target, ast.Name):
+                inplace.append((node, node.target.id))
+            if isinstance(node, ast.Call) and isinstance(node.func, ast.Attribute) and node.func.attr in ("update", "add", "discard", "remove", "clear", "pop", "difference_update", "intersection_update") \
+                    and isinstance(node.func.value, ast.Name):
+                inplace.append((node, node.func.value.id))
+        for node, nm in inplace:
+            rep.ob(rule, "in-place set operations work on a set created by get_group_ids itself, never on a register of the pool", fresh(nm), func=f, construct=node,
+                   detail="" if fresh(nm) else f"`{nm}` may be a live TaskGroupRegister taken from the group table: merging into it files the ids of one group under another")
+        rep.floor(rule, "union step in get_group_ids", len(ups) + len([1 for n_, _ in inplace if isinstance(n_, ast.AugAssign)]), 1)
         for u in ups:
             a = u.ast.args[0] if u.ast.args else None
             ok = isinstance(a, ast.Subscript) and ctx.eff.paths(f).of(a.value) == GROUPS and isinstance(a.slice, ast.Name)
